@@ -246,6 +246,9 @@ func (g *goliteCfg) expr(e ast.Expr) (string, error) {
 		}
 		if g.pure[fn] {
 			args, _ := g.exprs(v.Args)
+			if v.Ellipsis.IsValid() {
+				return fmt.Sprintf("EPred %s %s", g.str(fn+"..."), args), nil // f(a, b...): the last argument is spread
+			}
 			return fmt.Sprintf("EPred %s %s", g.str(fn), args), nil
 		}
 		if se, ok := v.Fun.(*ast.SelectorExpr); ok && g.pure["."+se.Sel.Name] {
@@ -719,8 +722,26 @@ func (g *goliteCfg) stmtInner(s ast.Stmt) ([]string, error) {
 			// for _, x := range L { ... }: L is a list cell
 			k, isK := v.Key.(*ast.Ident)
 			x, isX := v.Value.(*ast.Ident)
+			if isK && isX && k.Name != "_" {
+				// for i, x := range L: an index loop over the length L has on entry, x = L[i] at the head of every iteration
+				// (L is evaluated once by Go; here L[i] is read from the current L - the same as long as the body does not go on
+				// after changing L, which a theorem about the translated body has to show)
+				g.locals[k.Name] = true
+				g.locals[x.Name] = true
+				lx, err := g.expr(v.X)
+				if err != nil {
+					return nil, err
+				}
+				body, err := g.block(v.Body.List)
+				if err != nil {
+					return nil, err
+				}
+				head := fmt.Sprintf("SSet %s (EPred \"index\" [%s; EVar %s])", g.str(x.Name), lx, g.str(k.Name))
+				body = "[" + head + ";\n    " + strings.TrimPrefix(body, "[")
+				return []string{fmt.Sprintf("SForTo %s (EPred \"len\" [%s])\n    %s", g.str(k.Name), lx, body)}, nil
+			}
 			if !isK || k.Name != "_" || !isX {
-				return nil, fmt.Errorf("range loop over %s: only `for _, x := range` is understood", lit(v.X))
+				return nil, fmt.Errorf("range loop over %s: only `for _, x := range` and `for i, x := range` are understood", lit(v.X))
 			}
 			g.locals[x.Name] = true
 			body, err := g.block(v.Body.List)
@@ -1391,15 +1412,19 @@ func genGoLoopAddTarget(repo string) (string, error) {
 	if err != nil {
 		return "", err
 	}
-	fd := findFunc(f, "*commonBalancer", "AddTarget")
-	if fd == nil {
-		return "", fmt.Errorf("commonBalancer.AddTarget not found")
+	out := goloopHeader + "(* middleware/proxy.go: commonBalancer.AddTarget and RemoveTarget.  b.targets is a list cell (ranged over) and a field (read,\n   assigned); a target is a value with a Name; append, slicing and indexing are pure; the mutex is outside the model (the balancer\n   operations are taken as atomic). *)\n"
+	for _, nm := range [][2]string{{"AddTarget", "add_target"}, {"RemoveTarget", "remove_target"}} {
+		fd := findFunc(f, "*commonBalancer", nm[0])
+		if fd == nil {
+			return "", fmt.Errorf("commonBalancer.%s not found", nm[0])
+		}
+		s, err := goliteFunc(fd, nm[1], goliteCfg{loop: true, extern: map[string]bool{}, cells: map[string]bool{},
+			ignore: map[string]bool{"b.mutex.Lock": true, "b.mutex.Unlock": true},
+			pure:   map[string]bool{".Name": true, ".URL": true, "append": true, "len": true}})
+		if err != nil {
+			return "", err
+		}
+		out += s
 	}
-	s, err := goliteFunc(fd, "add_target", goliteCfg{loop: true, extern: map[string]bool{}, cells: map[string]bool{},
-		ignore: map[string]bool{"b.mutex.Lock": true, "b.mutex.Unlock": true},
-		pure:   map[string]bool{".Name": true, ".URL": true, "append": true, "len": true}})
-	if err != nil {
-		return "", err
-	}
-	return goloopHeader + "(* middleware/proxy.go: commonBalancer.AddTarget.  b.targets is a list cell (ranged over) and a field (assigned); a target is a\n   value with a Name; append is pure; the mutex is outside the model (the balancer operations are taken as atomic). *)\n" + s, nil
+	return out, nil
 }
